@@ -225,6 +225,22 @@ def run(ctx):
         from . import c20
         regs, steps = build_history(ctx, sess, 120 if quick else 300, 400 if quick else 1500, battery=True,
                                     pre=lambda rs: c20.extend_history(ctx, sess, rs, 40 if quick else 120))
+        if rd == 0:
+            # the active extras are a set: conjunctions / disjunctions over two and three extras under every order of the slice
+            import itertools
+            EX = [("extra == 'a' and extra == 'b'", lambda s: 'a' in s and 'b' in s), ("extra == 'a' and extra == 'b' and extra == 'c'", lambda s: {'a', 'b', 'c'} <= s),
+                  ("extra != 'c' and extra == 'a'", lambda s: 'c' not in s and 'a' in s), ("extra == 'b' or (extra == 'c' and extra != 'a')", lambda s: 'b' in s or ('c' in s and 'a' not in s)),
+                  ("(extra == 'a' or extra == 'c') and extra == 'b' and os_name == 'posix'", lambda s: ('a' in s or 'c' in s) and 'b' in s)]
+            for text, f in EX:
+                reg, _ = sess.parse(text)
+                if reg is None:
+                    continue
+                for k in (1, 2, 3):
+                    for perm in itertools.permutations(['a', 'b', 'c'], k):
+                        r = sess.ask(['eval', str(reg), markers.env_sexp(markers.DEFAULT_ENV), [S(x) for x in perm]])
+                        ctx.oracle_cases += 1
+                        if r[0] != 'ok' or set(r[1:6]) != {'T' if f(set(perm)) else 'F'}:
+                            ctx.failure('%s with the active extras %r evaluates to %s' % (text, list(perm), dump(r[1:6]) if r[0] == 'ok' else dump(r)[:80]), {'marker': text, 'extras': list(perm)})
         bad = monitor(ctx, sess, regs)
         ctx.extra['monitor_wfb_false'] = ctx.extra.get('monitor_wfb_false', 0) + len(bad)
         meta = correspond(ctx, sess, steps, vm=(25 if quick else 150) if rd == 0 else 0)
